@@ -32,4 +32,12 @@ var specs = map[string]*propSpec{
 		Real: []string{"pkg/blobserver/{memory,files,localdisk,diskpacked,blobpacked,encrypt,replica,shard,cond,overlay,namespace,proxycache,union}", "pkg/blobserver (Receive, MergedEnumerate, StatBlobsParallelHelper)", "filippo.io/age"},
 		Stub: []string{"SimStore leaf stores", "SimKV sorted key/value (meta indexes)", "SimVFS under files", "os shim + scratch directory under diskpacked"},
 	},
+	"C12": {
+		ID: "C12", Engine: "storesim", Level: "fault_enumeration",
+		QuickRuns: 6000, ThoroughRuns: 300000, Chunk: 200, WatchdogS: 240,
+		Rule:      "one evaluation = one replica configuration (n in 1..5, minWritesForSuccess in 1..n, read set equal/subset/with extra store, overlapping pre-seeded contents) driven through one receive per failing subset of replicas (all 2^n subsets for n<=4; failure kind per failing replica: error, error-after-effect, wrong size, slow) interleaved with fetch/stat/enumerate under read-replica faults; completion order of the concurrent uploads is decided by the seeded scheduler; sub-runs = receives; distinct = distinct (n, m, read set size, op/fault sequence)",
+		Real:      []string{"pkg/blobserver/replica", "pkg/blobserver (ReceiveNoHash, MergedEnumerate)"},
+		Stub:      []string{"SimStore replicas with fault plan and scheduling points"},
+		MustReach: []string{"ack-with-failed-replicas", "ack-before-stragglers", "recv-refused"},
+	},
 }
